@@ -22,8 +22,21 @@ def presence(cls, names):
     return out
 
 
+def to_kwargs(m):
+    """The message as the dict a caller would pass instead of it: set fields by name, sub-messages as dicts."""
+    out = {}
+    for fd, v in m.ListFields():
+        if fd.type == fd.TYPE_MESSAGE:
+            out[fd.name] = [to_kwargs(x) for x in v] if fd.label == fd.LABEL_REPEATED else to_kwargs(v)
+        else:
+            out[fd.name] = list(v) if fd.label == fd.LABEL_REPEATED else v
+    return out
+
+
 def run_call(spec, gs, hs, pkg):
     msg = D.build_message(D.resolve(spec["cls"]), spec["b64"])
+    if spec.get("as_dict"):
+        msg = to_kwargs(msg)
 
     def mk():
         return D.make_client(pkg, spec["service_module"], spec["client"], spec["transport"], gs.target, hs.host)
